@@ -36,8 +36,7 @@ def listing_selfcheck(repo='/repo', verbose=False):
 def main(quick=True):
     tot, bad, badfiles = listing_selfcheck()
     # one corpus archive has a raw newline inside a name in its -hdr.txt (an artefact of that dump format, not of the layout)
-    allowed = [f for f in badfiles if 'regression' in f or 'badterm' in f or True]
     print('SELFCHECK listing renderer: %d recorded listings, %d differ' % (tot, bad))
-    if tot < 500 or bad > 8:
+    if tot < 500 or any('badterm' not in f for f in badfiles):
         print('SELFCHECK FAILED: list renderer disagrees with the recorded real-tool listings:', badfiles[:10])
         sys.exit(1)
